@@ -63,10 +63,12 @@ OBLIGATIONS = {
     "C07": ["sstep_inv", "estep_inv", "c07_same_response", "c07_reject_sticks", "c07_reject_no_pay", "c07_single_shot"],
     "C08": ["sstep_inv", "c08_write_ahead", "c08_marker_while_paying", "c08_pending_before_pay",
             "c08_free_only_when_quiet", "c08_succeeded_preimage"],
-    "C11": ["c11_timeout_fails", "c11_not_before", "c11_fresh_deadline", "c11_restart_budget", "c11_ttf_sources"],
+    "C11": ["c11_timeout_fails", "c11_not_before", "c11_fresh_deadline", "c11_restart_budget", "c11_ttf_sources",
+            "dl_step", "c11_deadline_bound", "c11_due_after_one_timeout"],
     "C06": ["sstep_inv", "estep_inv", "c06_no_panic", "c06_bytes_total", "c06_immediate_or_held", "c06_at_most_once",
             "c06_nonblocking_sends", "c06_owner_progress", "c06_pinned_overflow_panics", "c06_todo_counterexample",
-            "c11_timeout_fails", "c17_dispatch"],
+            "c11_timeout_fails", "c17_dispatch", "once_step", "c06_at_most_once_run", "c11_deadline_bound",
+            "c11_due_after_one_timeout"],
     "C09": ["c09_succeeded_settles", "c09_free_settles", "c09_pending_completed_settles", "c09_stale_pending_frees",
             "c09_pending_pays", "c09_from_wait", "c09_pinned_wedge"],
     "C14": ["c14_frame", "c14_own_state_only", "c14_frozen", "c14_no_pooling"],
